@@ -42,8 +42,11 @@ func mkChooser(s Sched) vrt.Chooser {
 var MaxStepsDefault = 400_000
 
 // RunCase executes a case on the coop runtime. It is a pure function of the case.
-func RunCase(c *Case) *Result {
-	e := &Env{c: c, jobs: map[int]*jobH{}, groups: map[int]*groupH{}, items: map[int]*Item{}, itemQ: map[int]int{}, open: map[int]bool{}}
+func RunCase(c *Case) *Result { return runCaseWith(c, nil) }
+
+// runCaseWith additionally places raw items on adapter queue 0 before binding (C11 recovery).
+func runCaseWith(c *Case, preRaw []adItem) *Result {
+	e := &Env{preRaw: preRaw, c: c, jobs: map[int]*jobH{}, groups: map[int]*groupH{}, items: map[int]*Item{}, itemQ: map[int]int{}, open: map[int]bool{}}
 	opt := vrt.Options{Chooser: mkChooser(c.Sched), MaxSteps: MaxStepsDefault, OnQuiescent: e.onQuiescent, Trace: os.Getenv("VERIF_TRACE") != ""}
 	if c.Cut > 0 {
 		cut := c.Cut
